@@ -70,11 +70,17 @@ class paused:
 def _record(tag, method, **info):
     """Record a call; raise if the fault plan says so.  The fault fires before
     the peer does any work, so that 'call k failed' has one meaning."""
+    rec = None
     if CTX.recording:
         CTX.event += 1
         rec = {"ev": CTX.event, "tag": tag, "m": method}
         rec.update(info)
         CTX.log.append(rec)
+    _maybe_fail(method)
+    return rec
+
+
+def _maybe_fail(method):
     if CTX.armed and method in ("fit", "predict", "update", "transform",
                                 "inverse_transform", "fit_transform"):
         CTX.calls += 1
@@ -188,3 +194,163 @@ class StubRegressor(RegressorMixin, SkBase):
         if out.ndim == 1 and out.shape[0] == 1:
             return out.reshape(())  # 0-d for a single row
         return out
+
+
+# ------------------------------------------------------------------ forecaster spy
+def _series_info(y):
+    if y is None:
+        return None
+    idx = list(y.index)
+    if len(idx) == 0:
+        return {"n": 0}
+    vals = np.asarray(y.values, dtype=float)
+    return {"n": len(idx), "first": _lab(idx[0]), "last": _lab(idx[-1]),
+            "dig": hashlib.sha256(np.round(vals, 8).tobytes()).hexdigest()[:12]}
+
+
+def _lab(t):
+    try:
+        return int(t)
+    except Exception:
+        return str(t)
+
+
+def _fh_info(fh):
+    if fh is None:
+        return None
+    try:
+        from sktime.forecasting.base import ForecastingHorizon
+        if isinstance(fh, ForecastingHorizon):
+            return {"rel": bool(fh.is_relative), "v": [_lab(v) for v in fh.to_pandas()]}
+    except Exception:
+        pass
+    return {"rel": True, "v": [_lab(v) for v in np.atleast_1d(np.asarray(fh))]}
+
+
+def _make_spy_forecaster():
+    """Defined lazily: needs sktime (imported after the compat layer)."""
+    from sktime.forecasting.base import BaseForecaster
+
+    class SpyForecaster(BaseForecaster):
+        """Records every call; delegates to a clone of `inner` (a real sktime
+        forecaster).  Output is whatever the inner forecaster returns."""
+
+        _required_parameters = ["inner"]
+
+        def __init__(self, inner, tag="spyf"):
+            self.inner = inner
+            self.tag = tag
+            super(SpyForecaster, self).__init__()
+
+        def fit(self, y, X=None, fh=None, **fit_params):
+            _record(self.tag, "fit", y=_series_info(y), X=_series_info(X), fh=_fh_info(fh),
+                    obj=id(self))
+            self.inner_ = clone(self.inner)
+            self.inner_.fit(y, X, fh=fh, **fit_params)
+            self._is_fitted = True
+            return self
+
+        def predict(self, fh=None, X=None, return_pred_int=False, alpha=0.05):
+            self.check_is_fitted()
+            rec = _record(self.tag, "predict", fh=_fh_info(fh), X=_series_info(X), obj=id(self))
+            out = self.inner_.predict(fh, X, return_pred_int=return_pred_int, alpha=alpha)
+            if rec is not None and isinstance(out, pd.Series):
+                rec["out"] = [float(v) for v in out.values]
+                rec["out_index"] = [_lab(t) for t in out.index]
+            return out
+
+        def update(self, y, X=None, update_params=True):
+            self.check_is_fitted()
+            _record(self.tag, "update", y=_series_info(y), X=_series_info(X),
+                    up=bool(update_params), obj=id(self))
+            self.inner_.update(y, X, update_params=update_params)
+            return self
+
+        def update_predict(self, y, cv=None, X=None, update_params=True,
+                           return_pred_int=False, alpha=0.05):
+            self.check_is_fitted()
+            return self.inner_.update_predict(y, cv=cv, X=X, update_params=update_params,
+                                              return_pred_int=return_pred_int, alpha=alpha)
+
+        def update_predict_single(self, y_new, fh=None, X=None, update_params=True,
+                                  return_pred_int=False, alpha=0.05):
+            self.check_is_fitted()
+            self.update(y_new, X, update_params=update_params)
+            return self.predict(fh, X, return_pred_int=return_pred_int, alpha=alpha)
+
+        @property
+        def cutoff(self):
+            return self.inner_.cutoff
+
+        def get_fitted_params(self):
+            return self.inner_.get_fitted_params()
+
+    SpyForecaster.__module__ = "simkit.peers"
+    SpyForecaster.__qualname__ = "SpyForecaster"
+    return SpyForecaster
+
+
+_SPY_CACHE = {}
+
+
+def __getattr__(name):
+    if name == "SpyForecaster":
+        if name not in _SPY_CACHE:
+            _SPY_CACHE[name] = _make_spy_forecaster()
+            globals()[name] = _SPY_CACHE[name]
+        return _SPY_CACHE[name]
+    if name == "SpyTransformer":
+        if name not in _SPY_CACHE:
+            _SPY_CACHE[name] = _make_spy_transformer()
+            globals()[name] = _SPY_CACHE[name]
+        return _SPY_CACHE[name]
+    raise AttributeError(name)
+
+
+def _make_spy_transformer():
+    from sktime.transformations.base import _SeriesToSeriesTransformer
+
+    class SpyTransformer(_SeriesToSeriesTransformer):
+        """Records every call; delegates to a clone of `inner` (a real series
+        transformer).  Tags are those of the inner transformer."""
+
+        _required_parameters = ["inner"]
+
+        def __init__(self, inner, tag="spyt"):
+            self.inner = inner
+            self.tag = tag
+            super(SpyTransformer, self).__init__()
+
+        def _all_tags(self):
+            return type(self.inner)._all_tags()
+
+        def fit(self, Z, X=None):
+            _record(self.tag, "fit", y=_series_info(Z), obj=id(self))
+            self.inner_ = clone(self.inner)
+            self.inner_.fit(Z, X)
+            self._is_fitted = True
+            return self
+
+        def transform(self, Z, X=None):
+            self.check_is_fitted()
+            _record(self.tag, "transform", y=_series_info(Z), obj=id(self))
+            return self.inner_.transform(Z, X)
+
+        def fit_transform(self, Z, X=None):
+            return self.fit(Z, X).transform(Z, X)
+
+        def inverse_transform(self, Z, X=None):
+            self.check_is_fitted()
+            _record(self.tag, "inverse_transform", y=_series_info(Z), obj=id(self))
+            return self.inner_.inverse_transform(Z, X)
+
+        def update(self, Z, X=None, update_params=True):
+            self.check_is_fitted()
+            _record(self.tag, "update", y=_series_info(Z), up=bool(update_params), obj=id(self))
+            if hasattr(self.inner_, "update"):
+                self.inner_.update(Z, X, update_params=update_params)
+            return self
+
+    SpyTransformer.__module__ = "simkit.peers"
+    SpyTransformer.__qualname__ = "SpyTransformer"
+    return SpyTransformer
